@@ -86,4 +86,15 @@ theorem fold_strides (hassoc : ∀ a b c : α, op (op a b) c = op a (op b c)) (L
     · simp only [hlt, if_false, List.foldl_nil]
       rw [hw j hj]; exact W_full op v L p j (by omega) hj
 
+/-- one round never touches positions outside the scanned range -/
+theorem step_outside (L i : Nat) (v : Nat → α) (j : Nat) (hj : L ≤ j) : step op L i v j = v j := by
+  unfold step; simp; intro _ h; omega
+
+
+theorem ofFn_getD {β} [Inhabited β] (n : Nat) (f : Fin n → β) (j : Nat) (hj : j < n) :
+    (Array.ofFn f).getD j default = f ⟨j, hj⟩ := by
+  rw [Array.getD_eq_getD_getElem?]
+  simp [hj]
+
+
 end PP.Scan
